@@ -50,6 +50,8 @@ fn corpus(tier: Tier) -> Vec<(String, PProblem)> {
     // vicinity clustering: acceptance, and the commute records as mutation sites (the oracle replays the walk, not the schedule)
     out.extend(family_cluster_walk().into_iter().map(|p| ("cluster".to_string(), p)));
     out.extend(family_cluster().into_iter().step_by(tier.pick(12, 1)).map(|p| ("cluster".to_string(), p)));
+    // clustered jobs with time windows (every threshold option)
+    out.extend(family_cluster_tw().into_iter().step_by(tier.pick(2, 1)).map(|p| ("cluster".to_string(), p)));
     if tier != Tier::Quick {
         out.extend(family_combo(3).into_iter().map(|p| ("combo".to_string(), p)));
         // NOTE: time dependent matrices are left out: the checker declares them unsupported itself
